@@ -7,6 +7,24 @@ Local Open Scope N_scope.
 Definition is_special (c : N) : bool :=
   (N.eqb c 58 || N.eqb c 124 || N.eqb c 125 || N.eqb c 123 || N.eqb c 92)%bool.
 
+(* equations of the PEG interpreter used before the general ones further down *)
+Lemma run_alt_eq (a b : peg rule) at_ inp :
+  run (PAlt a b) at_ inp = match run a at_ inp with Some x => Some x | None => run b at_ inp end.
+Proof. reflexivity. Qed.
+Lemma run_seq_eq (a b : peg rule) at_ inp : run (PSeq a b) at_ inp = seq_res rule (run a at_ inp) (run b at_).
+Proof. reflexivity. Qed.
+Lemma run_not_eq (a : peg rule) at_ inp :
+  run (PNot a) at_ inp = match run a true inp with Some _ => None | None => Some ([], [], inp) end.
+Proof. reflexivity. Qed.
+Lemma run_rule_normal_atomic_eq (id : rule) (body : peg rule) inp :
+  run (PRule id Normal body) true inp = match run body true inp with Some (t, k, r) => Some (t, [], r) | None => None end.
+Proof. reflexivity. Qed.
+Lemma run_str_eq (p : str) at_ r : run (@PStr rule p) at_ (p ++ r) = Some (p, [], r).
+Proof. cbn [run]. rewrite strip_prefix_app. reflexivity. Qed.
+Lemma seq_res_some_eq t1 k1 r1 (f : str -> res rule) :
+  seq_res rule (Some (t1, k1, r1)) f = match f r1 with Some (t2, k2, r2) => Some (t1 ++ t2, k1 ++ k2, r2) | None => None end.
+Proof. reflexivity. Qed.
+
 (* one step of simple_arg_content in an atomic context *)
 Lemma content_escaped d r :
   run r_simple_arg_content true (92 :: d :: r) = Some ([92; d], [], r).
@@ -16,9 +34,10 @@ Lemma content_plain c r : is_special c = false ->
   run r_simple_arg_content true (c :: r) = Some ([c], [], r).
 Proof.
   unfold is_special. intros H. repeat rewrite orb_false_iff in H. destruct H as [[[[H1 H2] H3] H4] H5].
-  unfold r_simple_arg_content, r_escaped_char, r_simple_normal_char. cbn [run seq_res strip_prefix].
-  rewrite (N.eqb_sym 92 c), H5. cbn [run seq_res strip_prefix].
-  rewrite (N.eqb_sym 58 c), H1, (N.eqb_sym 124 c), H2, (N.eqb_sym 125 c), H3, (N.eqb_sym 123 c), H4.
+  unfold r_simple_arg_content, r_escaped_char, r_simple_normal_char.
+  (* whatever the order and grouping of the comparisons in the rule *)
+  do 8 (cbn [run seq_res strip_prefix];
+        rewrite ?(N.eqb_sym 92 c), ?(N.eqb_sym 58 c), ?(N.eqb_sym 124 c), ?(N.eqb_sym 125 c), ?(N.eqb_sym 123 c), ?H1, ?H2, ?H3, ?H4, ?H5).
   reflexivity.
 Qed.
 
@@ -369,21 +388,31 @@ Proof.
 Qed.
 
 (* the separator ends where ":.." begins *)
-(* ".." is matched by rule range_part, whichever of ".." and "..=" the grammar lists first *)
-Lemma range_part_dots a t : exists x, run r_range_part a (46 :: 46 :: t) = Some x.
+(* pieces of the (normalised) grammar, taken from the rule that contains them: what may follow ":"
+   to end a split / regex argument (number | ".." | "..=" in some order), and the operation keywords *)
+Definition num_or_range : peg rule :=
+  match r_split_content with PRule _ _ (PSeq (PNot (PSeq _ x)) _) => x | _ => PAny end.
+Definition kw_alt : peg rule :=
+  match r_split_content with PRule _ _ (PSeq _ (PSeq (PNot (PSeq _ k)) _)) => k | _ => PAny end.
+
+(* ".." is accepted there, whichever of ".." and "..=" the grammar lists first *)
+Lemma num_or_range_dots a t : exists x, run num_or_range a (46 :: 46 :: t) = Some x.
 Proof.
-  unfold r_range_part. cbn [run strip_prefix N.eqb Pos.eqb].
+  cbv [num_or_range r_split_content]. rewrite run_alt_eq.
+  assert (Hn : run r_number a (46 :: 46 :: t) = None) by (destruct a; reflexivity). rewrite Hn.
+  cbn [run strip_prefix N.eqb Pos.eqb].
   destruct t as [|c t]; [eexists; reflexivity|].
   destruct c as [|q]; [eexists; reflexivity|]. destruct (Pos.eqb 61 q); eexists; reflexivity.
 Qed.
 
 Lemma split_stop_at_range t : run split_alt true (58 :: 46 :: 46 :: t) = None.
 Proof.
-  destruct (range_part_dots true t) as (x & Hx).
+  destruct (num_or_range_dots true t) as (x & Hx). cbv [num_or_range r_split_content] in Hx.
   unfold split_alt, r_split_escaped_char, r_split_content.
-  cbn [run seq_res strip_prefix N.eqb Pos.eqb].
-  assert (Hn : run r_number true (46 :: 46 :: t) = None) by reflexivity.
-  rewrite Hn, Hx. destruct x as [[? ?] ?]. reflexivity.
+  rewrite run_alt_eq. assert (H1 : run (PRule R_split_escaped_char Normal (PSeq (PStr [92]) PAny)) true (58 :: 46 :: 46 :: t) = None) by reflexivity.
+  rewrite H1. rewrite run_rule_normal_atomic_eq, run_seq_eq, run_not_eq, run_seq_eq.
+  change (58 :: 46 :: 46 :: t) with ([58] ++ 46 :: 46 :: t). rewrite run_str_eq, seq_res_some_eq, Hx.
+  destruct x as [[? ?] ?]. reflexivity.
 Qed.
 
 Lemma esc_cp_cases c : (exists y, esc_cp c = [92; y]) \/ (esc_cp c = [c] /\ is_special c = false).
